@@ -319,7 +319,7 @@ def _layout(spec, ctx, R):
 def _scaled(spec, ctx, R):
     rng = gen.rng_for(spec["seed"], "c05sc", spec["idx"])
     m, n = _shape(rng, spec["maxd"], spec["idx"])
-    c = float(rng.choice([1e-8, 1e-4, 1e4, 1e8]))
+    c = float(rng.choice([1e-14, 1e-8, 1e-4, 1e4, 1e8, 1e14]))
     s_true = gen.spectrum("simple", min(m, n), rng, 8.0) * c
     A, _, _ = refq.with_singular_values(rng, m, n, s_true)
     tags, rank = truth_tags(s_true, m, n)
